@@ -7,7 +7,10 @@ use crate::derx::*;
 
 #[derive(Clone, Debug, PartialEq, Eq)]
 pub struct Atv {
+	/// arcs; empty when an arc does not fit 64 bits (then only `oid_raw` identifies the type)
 	pub oid: Vec<u64>,
+	/// DER content octets of the attribute type
+	pub oid_raw: Vec<u8>,
 	/// universal tag number of the value
 	pub tag: u32,
 	pub bytes: Vec<u8>,
@@ -132,13 +135,16 @@ pub fn parse_name(t: &Tlv<'_>) -> R<Name> {
 			if k.len() != 2 {
 				return Err("AttributeTypeAndValue must have 2 elements".into());
 			}
-			let oid = oid_of(&k[0], "attribute type")?;
+			k[0].expect_univ(OID, "attribute type")?;
+			oid_wellformed(k[0].content)?;
+			let oid = decode_oid(k[0].content).unwrap_or_default();
 			if k[1].class != 0 {
 				return Err("attribute value is not a universal type".into());
 			}
 			check_value(&k[1])?;
 			atvs.push(Atv {
 				oid,
+				oid_raw: k[0].content.to_vec(),
 				tag: k[1].tag,
 				bytes: k[1].content.to_vec(),
 			});
